@@ -31,7 +31,8 @@ def type_name(nodes, k):
 class Presenter:
     """expect: 'value' while the presentation still denotes the value; 'err' once a deliberate
     breakage was injected (the serializer must fail); 'unknown' when we cannot tell."""
-    def __init__(self, rng, nodes, break_prob=0.0, by_type_prob=0.3):
+    def __init__(self, rng, nodes, break_prob=0.0, by_type_prob=0.3, canonical_layout=False):
+        self.canonical_layout = canonical_layout
         self.rng, self.nodes = rng, nodes
         self.break_prob = break_prob
         self.by_type_prob = by_type_prob
@@ -107,6 +108,8 @@ class Presenter:
             items = [it for blk in e[1:] for it in blk[2:]]
             vs = [self.pres(n.items, it) for it in items]
             r = rng.random()
+            if self.canonical_layout and r < 0.25:
+                r = 0.3
             if r < 0.25:
                 return "(seq none%s)" % "".join(" " + v for v in vs)
             if r < 0.4:
@@ -118,7 +121,7 @@ class Presenter:
                 ln += 1
                 self.expect = "err"
                 self.note("advertised seq length not reached")
-            elif rng.random() < 0.1 and ln > 0:
+            elif rng.random() < 0.1 and ln > 0 and not self.canonical_layout:
                 ln -= 1                 # fewer advertised than given: extra single blocks, still valid
             return "(seq %d%s)" % (ln, "".join(" " + v for v in vs))
         if kind == "map":
@@ -138,7 +141,7 @@ class Presenter:
                     calls.append("(value %s)" % pv)
                 else:
                     calls.append("(entry %s %s)" % (pk, pv))
-            ln = rng.choice(["none", str(len(items))])
+            ln = rng.choice(["none", str(len(items))]) if not self.canonical_layout else str(len(items))
             if rng.random() < self.break_prob:
                 ln = str(len(items) + 1)
                 self.expect = "err"
